@@ -10,6 +10,7 @@ import (
 
 	"rscheck/cfgq"
 	"rscheck/core"
+	"rscheck/lin"
 	"rscheck/pat"
 )
 
@@ -493,6 +494,27 @@ func nonEmpty(info *types.Info, arg ast.Expr) func(cfgq.Fact) bool {
 				return true
 			}
 		}
+		// any spelling of hi - lo > 0 (e.g. `end > 0` for key[open+1 : open+1+end])
+		if se, ok := arg.(*ast.SliceExpr); ok && se.Low != nil && se.High != nil {
+			if cmp, ok := lin.CmpOf(info, f.Expr, f.Val); ok {
+				lo, hi := lin.Of(info, se.Low), lin.Of(info, se.High)
+				diff := lin.Form{Coef: map[string]int64{}, Const: lo.Const - hi.Const} // lo - hi
+				for k, v := range lo.Coef {
+					diff.Coef[k] += v
+				}
+				for k, v := range hi.Coef {
+					diff.Coef[k] -= v
+				}
+				for k, v := range diff.Coef {
+					if v == 0 {
+						delete(diff.Coef, k)
+					}
+				}
+				if cmp.Is(diff, token.LSS) { // lo - hi < 0
+					return true
+				}
+			}
+		}
 		return false
 	}
 }
@@ -512,20 +534,35 @@ func emptinessTests(info *types.Info, body ast.Node, arg ast.Expr, crcFn *types.
 		return hit
 	}
 	var lo, hi, tag types.Object
+	boundVars := map[types.Object]bool{}
 	if se, ok := arg.(*ast.SliceExpr); ok && se.Low != nil && se.High != nil {
-		ast.Inspect(se.Low, func(n ast.Node) bool {
-			if id, ok := n.(*ast.Ident); ok {
-				if v, ok := info.Uses[id].(*types.Var); ok {
-					lo = v
+		for _, b := range []ast.Expr{se.Low, se.High} {
+			ast.Inspect(b, func(n ast.Node) bool {
+				if id, ok := n.(*ast.Ident); ok {
+					if v, ok := info.Uses[id].(*types.Var); ok {
+						boundVars[v] = true
+					}
 				}
-			}
-			return true
-		})
-		hi = objOf(info, strip(info, se.High))
+				return true
+			})
+		}
 	} else {
 		tag = objOf(info, arg)
 	}
 	n := 0
+	for v := range boundVars { // a comparison involving any variable of the bounds may be what guarantees hi > lo
+		ast.Inspect(body, func(m ast.Node) bool {
+			if x, ok := m.(*ast.BinaryExpr); ok {
+				switch x.Op {
+				case token.EQL, token.NEQ, token.LSS, token.GTR, token.LEQ, token.GEQ:
+					if mentions(x.X, v) || mentions(x.Y, v) {
+						n++
+					}
+				}
+			}
+			return true
+		})
+	}
 	ast.Inspect(body, func(m ast.Node) bool {
 		switch x := m.(type) {
 		case *ast.BinaryExpr:
